@@ -39,6 +39,15 @@ deriving DecidableEq, Repr, Inhabited
 /-- `siterator.Get`: `le.Fields = le.Fields.Concat(extFlds)` — byte concatenation; timestamp and message untouched -/
 def addProv (prov : Bytes) (e : Ev) : Ev := { e with fields := e.fields ++ prov }
 
+/-- length of xbinary's base-128 varint of `n` -/
+def varintLen (n : Nat) : Nat := if n < 128 then 1 else if n < 16384 then 2 else if n < 2097152 then 3 else if n < 268435456 then 4 else 5
+
+/-- `model.LogEvent.WritableSize`: header byte, timestamp, length-prefixed message and — only when the (binary) field list
+is not empty — the length-prefixed field list. This is the size of the journal record of the event. -/
+def recSize (e : Ev) : Nat :=
+  1 + 8 + varintLen e.msg.length + e.msg.length +
+    (if e.fields.isEmpty then 0 else varintLen e.fields.length + e.fields.length)
+
 /-- `partition.WriteEvent` -/
 structure WE where
   src : Nat
